@@ -54,7 +54,7 @@ func (c14) Cases(tier string) int {
 func (c14) Describe() core.Info {
 	return core.Info{
 		Level: "exploration",
-		Rule: "one- and two-rule temporal programs over base facts t0(v)@[a h, b h] on a whole-hour timeline around a fixed evaluation time; base facts are either written as pairwise separated intervals or preloaded with overlaps and coalesced by the store. Shapes: each of the four operators with windows [a h, b h], 0 <= a <= b <= 12 (zero-length windows, windows ending on interval end points, 'now' bounds); variable annotations @[S,E] and @[_,E]; a diamond over a literal that also carries @[S,E] (one solution per stored interval that meets the window); constant annotations (holds throughout); head annotations with variables, constants and 'now' (start > end predicted as an error); an operator over a derived temporal predicate. Oracle: pointwise semantics by interval arithmetic on the normalised union of the model's intervals. Case 0 additionally checks the nine interval-relation predicates exhaustively on all pairs of intervals of a 6-point timeline (21x21x9 decisions) against their closed-interval definitions and converse/symmetry laws, with intervals given as pairs of numbers and as pairs of time instants (the declared argument type). Non-trivial: window touches an interval end point or spans two stored intervals; distinct by case content.",
+		Rule: "one- and two-rule temporal programs over base facts t0(v)@[a h, b h] on a whole-hour timeline around a fixed evaluation time; base facts are either written as pairwise separated intervals or preloaded with overlaps and coalesced by the store. Shapes: each of the four operators with windows [a h, b h], 0 <= a <= b <= 12 (zero-length windows, windows ending on interval end points, 'now' bounds); variable annotations @[S,E] and @[_,E]; a diamond over a literal that also carries @[S,E] (one solution per stored interval that meets the window); constant annotations (holds throughout); head annotations with variables, constants and 'now' (start > end predicted as an error); an operator over a derived temporal predicate. Oracle: pointwise semantics by interval arithmetic on the normalised union of the model's intervals. Case 0 additionally checks the nine interval-relation predicates exhaustively on all pairs of intervals of a 6-point timeline (21x21x9 decisions) against their closed-interval definitions and converse/symmetry laws, with intervals given as pairs of numbers and as pairs of time instants (the declared argument type). Non-trivial: window touches an interval end point or spans two stored intervals; distinct by case content. The operator-over-annotated-literal shape uses all four operators (boxes: one solution per stored interval that covers the window).",
 		Assumptions: []string{"windows with a > b, the point shorthand p(X)@[T] against non-point intervals, and annotations over already bound variables are executed nowhere (the documentation does not define them)"},
 	}
 }
